@@ -135,6 +135,20 @@ Theorem C09_fixed_point_partial : forall (G H Gc1 : mgraph) (order1 : list N),
 Proof. exact fixed_point_gen. Qed.
 Print Assumptions C09_fixed_point_partial.
 
+(** the order premise of C09_numbering_independent_partial is necessary: with two product atoms without reactant partner
+    ([Na+:8] and [K+:9] added to CH3Br + OH- >> CH3OH + Br-), exchanging their numbers - a renumbering that fixes every
+    reactant atom - exchanges their canonical numbers: canonical product atom 4 is Na in one presentation and K in the
+    other although all reactant atoms are distinguishable.  Known finding (key partnerless-product-atoms-order). *)
+Theorem C09_numbering_partnerless_refuted :
+  exists (G H : mgraph) (order : list N) (p : N -> N),
+    parsed G /\ enumerates order G /\ (forall a b, p a = p b -> a = b) /\ (forall n, In n (node_ids G) -> p n = n) /\
+    exists Gc1 pr1 Hc1 Gc2 pr2 Hc2,
+      canonicalise_with (canon_rebuild order G) H = Some (Gc1, pr1, Hc1) /\
+      canonicalise_with (canon_rebuild order G) (set_amap (relabel p H)) = Some (Gc2, pr2, Hc2) /\
+      option_map g_el (label Hc1 4%N) <> option_map g_el (label Hc2 4%N).
+Proof. exact partnerless_order_refuted. Qed.
+Print Assumptions C09_numbering_partnerless_refuted.
+
 (** 2'. Back-end wl, invariance premise DISCHARGED: if the WL colours (oracle input [ranks]; networkx's contract: colours
        are invariant under renaming - premise) of corresponding atoms correspond and all reactant atoms have different
        colours ([ranks_distinct]), the two presentations get the same canonical graphs from [canonicalise_wl] (the
